@@ -6,7 +6,7 @@ LEVEL_NOTE = ("Coq theorem C18_holds: the loader's result is a function of the J
               "a source-less configuration needs nothing else), with serde_json as the parse oracle. Tied to Config::new by loading each generated configuration in compact, pretty, "
               "key-shuffled and whitespace-padded (9 KB, 70 KB, 300 KB; leading, trailing, interior) serialisations and with 300 targets, and requiring identical output from three APIs.")
 TRUSTED = ["Coq 8.16.1 kernel; no axioms", "serde_json as the oracle of which value a byte string denotes", "modelled, not verified: the Rust source"]
-RULE = ("configurations of 3, 6 and 300 targets (thorough: more) x 13+ serialisations each, read from the configuration file by config show / analyze / target show, and piped into `config generate` (also delivered in two writes 0.4 s apart); non-trivial = serialisation larger than 8 KiB or split delivery; distinct by (config, serialisation)")
+RULE = ("configurations of 3, 6 and 300 targets (thorough: more) x 16+ serialisations each (among them every string written with \\uXXXX escapes - values only, member names too - and every solidus as \\/; optional members such as out_dir, hosts, change_provider written out explicitly), read from the configuration file by config show / analyze / target show, and piped into `config generate` (also delivered in two writes 0.4 s apart); non-trivial = serialisation larger than 8 KiB or split delivery; distinct by (config, serialisation)")
 def run(ctx, scale): cfgscen.run_c18(ctx, scale)
 def replay(ctx, case):
     c = case.get("case", case)
